@@ -96,7 +96,7 @@ def build_comp_corpus(tier):
         open(os.path.join(out, ".cargo", "config.toml"), "w").write('[net]\noffline = true\n\n[build]\nrustflags = ["--cfg", "eqlog_verif"]\n')
         shutil.copy(os.path.join(M.VERIF, "Cargo.lock"), os.path.join(out, "Cargo.lock"))
         open(os.path.join(out, "pgc", "Cargo.toml"), "w").write(
-            '[package]\nname = "pgc"\nversion = "0.1.0"\nedition = "2024"\n\n[dependencies]\neqlog-runtime = { path = "/repo/eqlog-runtime" }\nmdrv = { path = "%s/modelsim/mdrv" }\n' % M.VERIF)
+            '[package]\nname = "pgc"\nversion = "0.1.0"\nedition = "2024"\n\n[dependencies]\neqlog-runtime = { path = "%s/eqlog-runtime" }\nmdrv = { path = "%s/modelsim/mdrv" }\n' % (M.REPO, M.VERIF))
         open(os.path.join(out, "pgc", "src", "lib.rs"), "w").write("pub fn entries() -> Vec<mdrv::Entry> { Vec::new() }\n")
         open(os.path.join(out, "msbincomp", "Cargo.toml"), "w").write(
             '[package]\nname = "msbincomp"\nversion = "0.1.0"\nedition = "2021"\n\n[dependencies]\nmdrv = { path = "%s/modelsim/mdrv" }\nmodelsim-sim = { path = "%s/modelsim/sim" }\npgc = { path = "../pgc" }\n' % (M.VERIF, M.VERIF))
@@ -182,20 +182,21 @@ def run(prop, tier, seed, spec, t0):
     return M.finish(prop, tier, seed, spec, results, outdir, binary, t0, extra_cov=extra_cov, extra_violations=extra_viol)
 
 
-def run_shards(prop, tier, seed, suffix=""):
+def run_shards(prop, tier, seed, suffix="", nshards=None, extra_args=()):
+    nshards = nshards or M.NSHARDS
     binary, excluded = build_corpus(tier)
     outdir = os.path.join(M.WORK, "%s-%s%s" % (prop, tier, suffix))
     if os.path.isdir(outdir):
         shutil.rmtree(outdir)
     os.makedirs(outdir)
-    extra = []
+    extra = list(extra_args)
     if os.environ.get("VERIF_RUNS"):
         extra += ["--runs", os.environ["VERIF_RUNS"]]
     setarch = shutil.which("setarch")
     procs = []
-    for i in range(M.NSHARDS):
+    for i in range(nshards):
         cmd = [binary, "run", "--prop", prop, "--tier", tier, "--seed", str(seed), "--shard", str(i),
-               "--nshards", str(M.NSHARDS), "--out", outdir] + extra
+               "--nshards", str(nshards), "--out", outdir] + extra
         if prop == "C20" and setarch and i % 2 == 1:
             cmd = [setarch, os.uname().machine, "-R"] + cmd
         out = open(os.path.join(outdir, "shard-%d.stdout" % i), "w")
@@ -217,7 +218,7 @@ def run_shards(prop, tier, seed, suffix=""):
     extra_viol = []
     if prop == "C20":
         seen = {}
-        for i in range(M.NSHARDS):
+        for i in range(nshards):
             hp = os.path.join(outdir, "shard-%d.hashes.json" % i)
             if not os.path.exists(hp):
                 raise M.HarnessError("shard %d wrote no hashes" % i)
@@ -225,7 +226,7 @@ def run_shards(prop, tier, seed, suffix=""):
                 seen.setdefault(k, {}).setdefault(v, []).append(i)
         diffs = {k: v for k, v in seen.items() if len(v) > 1}
         extra_cov["cross_process"] = {
-            "processes": M.NSHARDS,
+            "processes": nshards,
             "perturbations": ["ASLR off (setarch -R) on odd shards" if setarch else "setarch unavailable",
                               "environment padding 0..4095 bytes", "allocation padding 0..255 bytes per shard",
                               "fresh RandomState keys per process"],
